@@ -235,6 +235,13 @@ func (c *c11) Run(cs core.Case) core.Result {
 		c.runConcurrent(r, p, rng)
 		return r.Done()
 	}
+	// every fourth case runs on the non-SSSE3 dispatch path
+	noSSSE3 := p.Seed%4 == 0
+	had := gf2p16.VerifSetSSSE3(!noSSSE3 && gf2p16.VerifHasSSSE3())
+	defer gf2p16.VerifSetSSSE3(had)
+	if noSSSE3 {
+		r.Count("matrices_on_non_ssse3_path", 1)
+	}
 	m := c11Build(p.Kind, p.N, rng)
 	n := gf16.NewMatrix(p.N, p.NC)
 	for i := range n.E {
